@@ -645,9 +645,23 @@ func checkExclusionWiring(p *Prog, r *Report) {
 	r.Count("generator_sinks", nsink)
 	// writers of the exclusion list
 	var parser *ssa.Function
+	var cands []*ssa.Function
 	for _, fn := range parserSet(p) {
 		if fn.Signature.Results().Len() == 2 && types.TypeString(fn.Signature.Results().At(0).Type(), nil) == ipContainerT {
+			cands = append(cands, fn)
 			parser = fn
+		}
+	}
+	// the parser proper is the one with the line loop; the others must be pass-through wrappers of it
+	for _, fn := range cands {
+		if len(LoopHeaders(fn)) > 0 {
+			parser = fn
+		}
+	}
+	wrapper := map[*ssa.Function]bool{}
+	for _, fn := range cands {
+		if fn != parser && isPassThroughOf(fn, parser, wrapper) {
+			wrapper[fn] = true
 		}
 	}
 	if parser == nil {
@@ -674,7 +688,7 @@ func checkExclusionWiring(p *Prog, r *Report) {
 				}
 				good := false
 				if ex, isEx := st.Val.(*ssa.Extract); isEx && ex.Index == 0 {
-					if c, isC := ex.Tuple.(*ssa.Call); isC && StaticCallee(&c.Call) == parser {
+					if c, isC := ex.Tuple.(*ssa.Call); isC && (StaticCallee(&c.Call) == parser || wrapper[StaticCallee(&c.Call)]) {
 						good = true
 					}
 				}
@@ -921,4 +935,36 @@ func hasParamOfType(f *ssa.Function, t string) bool {
 		}
 	}
 	return false
+}
+
+// isPassThroughOf: fn is loop-free and every return hands back, unchanged and in order, the results
+// of one call to target (or to an already accepted wrapper of it).
+func isPassThroughOf(fn, target *ssa.Function, accepted map[*ssa.Function]bool) bool {
+	if fn == nil || fn.Blocks == nil || len(LoopHeaders(fn)) > 0 {
+		return false
+	}
+	n := 0
+	for _, s := range Paths(fn).Segs {
+		if !s.Returns() {
+			continue
+		}
+		n++
+		ret := s.Exit.(*ssa.Return)
+		var call *ssa.Call
+		for i, rv := range ret.Results {
+			ex, ok := s.Resolve(rv).(*ssa.Extract)
+			if !ok || ex.Index != i {
+				return false
+			}
+			c, isC := ex.Tuple.(*ssa.Call)
+			if !isC || (call != nil && c != call) {
+				return false
+			}
+			call = c
+		}
+		if call == nil || (StaticCallee(&call.Call) != target && !accepted[StaticCallee(&call.Call)]) {
+			return false
+		}
+	}
+	return n > 0
 }
